@@ -25,7 +25,7 @@ TRUSTED = [
     "not-held, armed values); Go's sort.Sort, maps, mutex; UnsafePool (tag safepool) is observed only (C14)",
 ]
 THEOREMS = ["C18_finalize_at_most_once", "C18_release_at_most_once", "C18_finalize_exactly_once_by_close",
-            "C18_release_exactly_once_after_finalize", "C18_close_order_reverse_mark", "C18_extraction_order_unique",
+            "C18_release_exactly_once_after_finalize", "C18_release_exactly_once_when_finalizer_kills", "C18_close_order_reverse_mark", "C18_extraction_order_unique",
             "C18_never_finalized_while_reachable", "C18_killed_context_skips_finalizers_not_releases",
             "C18_killed_context_releases_exactly_once", "C18_finalizer_runs_in_owning_context"]
 
@@ -141,6 +141,11 @@ def rand_world(rng):
         elif r < 92:
             ops.append(("finret",))
             w.held = set()
+        elif r < 97 and w.pending and rng.chance(1, 2):
+            # runPendingFinalizers in which the (j+1)-th finaliser terminates the context: rest of the batch dropped,
+            # ExtractPendingRelease not reached, PopContext releases
+            ops += [("PF", "kill", rng.below(len(w.pending) + 1)), ("AF", "discard"), ("AR",)]
+            w.closed = True
         elif r < 97:
             # close of the owning context, normal exit: runFinalizers(AF); PopContext: AF (discarded); AR
             ops += [("AF",), ("finret",), ("AF", "discard"), ("AR",)]
@@ -311,6 +316,83 @@ def owner_predicate(events):
     return None
 
 
+def collect_program(rng):
+    """Deterministic collector: the harness option mockgc=1 records the pools' runtime.SetFinalizer calls and the Lua
+    global collect(v, ...) runs the recorded Go finalisers of its arguments (one batch).  Inside a limited context:
+    release-only userdata, userdata with __gc and releaser, tables with __gc and at most one value whose finaliser
+    kills the context; one or two batches; then the context ends (normally / by error) unless it was killed.
+    Returns (source, exact expected log)."""
+    items = []       # [name, kind(u|uf|t|K), gc log or None, releasable]
+    src = ["local ctx = runtime.callcontext({kill={cpu=1000000}}, function()"]
+    n = 2 + rng.below(6)
+    killer_at = rng.below(n) if rng.chance(2, 3) else -1
+    for i in range(n):
+        if i == killer_at:
+            src.append("  K = setmetatable({}, {__gc = function() log('gc:K') runtime.killcontext() end})")
+            items.append(["K", "K", "l:gc:K", False])
+            continue
+        r = rng.below(3)
+        nm = "v%d" % i
+        if r == 0:
+            src.append("  %s = mkud('%s')" % (nm, nm))
+            items.append([nm, "u", None, True])
+        elif r == 1:
+            src.append("  %s = mkud('%s', gcmt('g%d'))" % (nm, nm, i))
+            items.append([nm, "uf", "gc:g%d" % i, True])
+        else:
+            src.append("  %s = setmetatable({}, gcmt('g%d'))" % (nm, i))
+            items.append([nm, "t", "gc:g%d" % i, False])
+    order = {it[0]: i for i, it in enumerate(items)}
+    finalised, released = set(), set()
+    expect = []
+    remaining = [it[0] for it in items]
+    rng_shuffle = lambda l: sorted(l, key=lambda _: rng.next())
+    nb = 1 + rng.below(2)
+    killed = False
+    byname = {it[0]: it for it in items}
+    for b in range(nb):
+        if not remaining:
+            break
+        batch = [x for x in rng_shuffle(remaining) if rng.chance(2, 3)]
+        if b == nb - 1 and "K" in remaining and "K" not in batch:
+            batch.append("K")         # a killer is always collected: its finaliser must not run at the context exit
+        if not batch:
+            continue
+        remaining = [x for x in remaining if x not in batch]
+        src.append("  collect(%s)" % ", ".join(batch))
+        pf = sorted([x for x in batch if byname[x][2]], key=lambda x: -order[x])
+        pr = sorted([x for x in batch if byname[x][1] == "u"], key=lambda x: -order[x])
+        for x in pf:
+            expect.append(byname[x][2])
+            finalised.add(x)
+            if x == "K":
+                killed = True
+                break
+        if killed:
+            break
+        for x in pr:
+            expect.append("rel:" + x)
+            released.add(x)
+        src.append("  log('after%d')" % b)
+        expect.append("l:after%d" % b)
+    how = "ok"
+    if not killed:
+        how = rng.choice(["ok", "ok", "error"])
+        if how == "error":
+            src.append("  error('boom')")
+        for it in reversed(items):
+            if it[2] and it[0] not in finalised:
+                expect.append(it[2])
+    for it in reversed(items):
+        if it[3] and it[0] not in released:
+            expect.append("rel:" + it[0])
+    src.append("end)")
+    src.append("log(ctx.status)")
+    expect.append("l:" + ("killed" if killed else {"ok": "done", "error": "error"}[how]))
+    expect.append("close")
+    return "\n".join(src) + "\n", expect
+
+
 def pool_ops(ops):
     return [o[:1] if o[0] in ("PF", "PR", "AF", "AR") else o for o in ops if o[0] in ("M", "G", "PF", "PR", "AF", "AR")]
 
@@ -365,12 +447,16 @@ def world_predicates(ops, outs):
                 else:
                     inreg.discard(k)
         elif o[0] in ("PF", "AF"):
-            discard = len(o) > 1
+            discard = len(o) > 1 and o[0] == "AF"
             # order: reverse order of (last) marking
             times = [mark_time.get(k, 0) for k in vals]
             if any(a <= b for a, b in zip(times, times[1:])):
                 fails.append("op %d (%s): values not in reverse order of marking: %s" % (i - 1, o[0], vals))
-            for k in vals:
+            ran = vals
+            if o[0] == "PF" and len(o) > 1:
+                discard = False
+                ran = vals[:o[2] + 1]          # the finalisers that were called before / when the context was terminated
+            for k in ran:
                 if o[0] == "PF" and (k not in dropped or k in held):
                     fails.append("op %d: key %x handed to its finaliser while reachable" % (i - 1, k))
                 if not discard:
@@ -735,6 +821,11 @@ def run(tier, seed):
     for j in range(nlua):
         src, expect = lua_program(rng)
         lua_cases.append(("gen%d" % j, src, "", expect, "generated"))
+    # deterministic collector (mockgc): batches of pending work inside limited contexts, incl. a finaliser that kills its context
+    ncol = 300 if tier == "quick" else 6000
+    for j in range(ncol):
+        src, expect = collect_program(rng)
+        lua_cases.append(("collect%d" % j, src, "mockgc=1", expect, "generated"))
     # collector-dependent programs: multiset checks only
     gc_src = ("local names = {}\nfor i = 1, 20 do local t = setmetatable({}, gcmt('d' .. i)) end\n"
               "for i = 1, 5 do _G['k' .. i] = setmetatable({}, gcmt('k' .. i)) end\n"
@@ -897,7 +988,7 @@ def replay(path, seed):
     for t in r["history"].split(";"):
         f = t.split()
         if f:
-            ops.append(tuple([f[0]] + [int(x, 16) if x != "discard" else x for x in f[1:]]))
+            ops.append(tuple([f[0]] + [x if x in ("discard", "kill") else int(x, 16) for x in f[1:]]))
     line = "r " + hist_str(pool_ops(ops))
     _, a, _ = vlib.run_lines(gvh, ["pool"], [line])
     _, b, _ = vlib.run_lines(oracle, [], [line])
